@@ -21,6 +21,7 @@ hand-written part: shims, spec functions, lemmas, impl headers).
     //@  keep_dassert | drop_dassert <k>  (default keep) drop the k-th debug_assert with a reason recorded
     //@  cut_readonly ...                    as cut, and the dropped text must be read-only on `self` (checked syntactically: no assignment
                                           to self.*, no `&mut self.*`, only a fixed list of `&self` std methods) — exit 2 otherwise
+    //@  (cut: the <from> anchor "@start" means: from just after the opening brace of the function body)
     //@  cut "<from>" .. "<until>" => "<r>" R8: delete the body text from the unique anchor <from> (inclusive) up to the
                                           unique anchor <until> (exclusive) and put <r> there; lines + sha256 of the cut recorded
     //@end
@@ -734,7 +735,11 @@ def rewrite_body(rf: RepoFile, it: Item, d: FnDirective, rules: dict, info: FnIn
     # R8 cut ranges are located first: text inside a cut is invisible to substitutions
     cut_ranges: list[tuple[int, int]] = []
     for frm, until, repl, tl in d.cuts:
-        occ_a = [m.start() for m in re.finditer(re.escape(frm), text) if m.start() >= body_lo and not in_comment(m.start())]
+        if frm == '@start':
+            # from the first character after the opening brace of the function body
+            occ_a = [body_lo + 1]
+        else:
+            occ_a = [m.start() for m in re.finditer(re.escape(frm), text) if m.start() >= body_lo and not in_comment(m.start())]
         if len(occ_a) != 1:
             raise LostAnchor(f'{rf.rel}: {d.selector}: cut start anchor {frm!r} found {len(occ_a)} times (need 1)')
         occ_b = [m.start() for m in re.finditer(re.escape(until), text) if m.start() > occ_a[0] and not in_comment(m.start())]
